@@ -102,6 +102,36 @@ def run (s : SSt) : List Op → SSt × List Out
     let (s2, o2) := run s1 ops
     (s2, o1 ++ o2)
 
+/-- source fact: in `credit_and_room_or_detached` the credit is waited for, then room is awaited, then the
+    credit is TAKEN through `take_credit`, which is `consume_link_credit(..).ok()` — it looks at the credit
+    again — and a `None` sends the loop round again -/
+def takeRechecks : Bool :=
+  (open take_rechecks in
+    decide (idx_credit_available___1_____await < idx_reserve_many___transfers_____await) &&
+    decide (idx_reserve_many___transfers_____await < idx_match_self___flow_state___take_credit___1__) &&
+    decide (idx_match_self___flow_state___take_credit___1__ < idx_Some___tag_______return_Ok_____tag___permits____) &&
+    decide (idx_Some___tag_______return_Ok_____tag___permits____ < idx_None_____continue) &&
+    decide (idx_None_____continue < 1000)) &&
+  (open take_credit_checks in decide (idx_consume_link_credit_____self___state_______lock___count_____ok____ < 1000))
+
+/-- a send that has seen a credit waits for room in the link-to-session queue; meanwhile the session task
+    applies the flows that arrive (`whileWaiting`); then the send takes its credit.  With `rechecks` it takes
+    it through `consume` (and goes round again when there is none); without, it takes it whatever is there.
+    `none` = goes round the loop again (waits for credit) -/
+def takeAfterRoom (rechecks : Bool) (s : SSt) (whileWaiting : List LFlow) : SSt × Option Nat :=
+  let s1 := replay' s whileWaiting
+  if rechecks then
+    match consume s1 1 with
+    | some (s2, tag) => (s2, some tag)
+    | none => (s1, none)
+  else
+    ({ s1 with dc := consume_link_credit.assign_delivery_count_0 1 s1.dc, lc := consume_link_credit.assign_link_credit_0 1 s1.lc }, some s1.dc)
+where
+  replay' (s : SSt) (flows : List LFlow) : SSt := flows.foldl (fun st f => (onFlow st f).1) s
+
+def takeAfterRoomAsSource (s : SSt) (whileWaiting : List LFlow) : SSt × Option Nat :=
+  takeAfterRoom takeRechecks s whileWaiting
+
 /-- link flows that reached a listener's session before the application accepted the link are kept
     and applied when it does: one after the other, in the order they arrived -/
 def replay (s : SSt) (flows : List LFlow) : SSt := flows.foldl (fun st f => (onFlow st f).1) s
